@@ -9,3 +9,17 @@ package fasthttp
 //@   requires contentLength >= 0
 //@   ensures[ordered]  err == nil ==> 0 <= startPos && startPos <= endPos && endPos < contentLength
 //@   ensures[prefix]   err == nil ==> hasPrefix(byteRange, "bytes=")
+
+// hasDotDotPathSegment is the last line of defence of FS against leaving the root: it must report every
+// ".." segment, i.e. ".." delimited by '/' or the ends of the path.
+//@ spec dotdotAt(p []byte, s int) bool = (s == 0 || p[s-1] == '/') && s + 2 <= len(p) && p[s] == '.' && p[s+1] == '.' &&
+//@                                        (s + 2 == len(p) || p[s+2] == '/')
+//@ func hasDotDotPathSegment results r
+//@   property C23
+//@   pure
+//@   ensures[finds-every-segment] r == exists s in [0,len(path)): dotdotAt(path, s)
+//@   loop 1:
+//@     invariant[range]  0 <= segmentStart && segmentStart <= i && i <= len(path)
+//@     invariant[start]  segmentStart == 0 || path[segmentStart-1] == '/'
+//@     invariant[inside] forall j in [segmentStart,i): path[j] != '/'
+//@     invariant[none-before] forall s in [0,segmentStart): !dotdotAt(path, s)
